@@ -238,7 +238,8 @@ def consumer_checks(ctx, ob, P):
         lists = [k for k, v in _arm_assigned(sc).items() if v == "[%s]" % var]
         rts = sorted(ret_texts(fn))
         ob.ok("consumer:find_next_active_node", "; ".join(rts))
-        if len(lists) != 1 or rts != sorted(["%s[0]" % lists[0], "random_choice(%s)" % lists[0]]):
+        # any element of the list of minimisers is a minimiser: [0], [-1] and random_choice(...) all return one
+        if len(lists) != 1 or not rts or any(r not in ("%s[0]" % lists[0], "%s[-1]" % lists[0], "random_choice(%s)" % lists[0]) for r in rts):
             ctx.violation(ob, "R6.argmin", "Simulation.find_next_active_node", "; ".join(rts), "scan-result-not-returned", "the node returned must be one of the minimisers collected by the scan", loc(fn))
         for t in sc.ties:
             app = [x for x in ast.walk(t) if isinstance(x, ast.Call) and call_name(x) in ("append", "insert")]
